@@ -18,6 +18,9 @@ type c03Node struct {
 	Kind   string // group | dataset | soft | ext
 	Target string // canonical path of the object a hard link resolves to ("" = itself)
 	Dense  bool   // created through CreateDenseGroup (not extendable through the API)
+	// NearFull: the object's header is within a few bytes of its 255-byte capacity (a soft link
+	// with a very long target): a first hard link to it may be refused for lack of room
+	NearFull bool
 }
 
 type c03Model struct {
@@ -190,6 +193,7 @@ func c03Run(c *ev.Ctx) {
 			k = r.Weighted([]int{6, 6, 1, 0, 0, 0})
 		}
 		expect := "ok"
+		nearFullCreate := false
 		switch k {
 		case 0:
 			op = hx.Op{K: "group", Path: g.newPath(valid)}
@@ -205,8 +209,11 @@ func c03Run(c *ev.Ctx) {
 			}
 			target := ex[r.Intn(len(ex))]
 			tn := m.nodes[target]
-			if tn.Kind == "soft" || tn.Kind == "ext" {
+			if (tn.Kind == "soft" || tn.Kind == "ext") && !tn.NearFull {
 				continue
+			}
+			if tn.NearFull {
+				expect = "either" // the reference-count message may not fit: capacity edge
 			}
 			op = hx.Op{K: "hardlink", Path: g.newPath(valid), Target: target}
 			if !valid && r.Bool() {
@@ -221,6 +228,16 @@ func c03Run(c *ev.Ctx) {
 		case 3:
 			op = hx.Op{K: "softlink", Path: g.newPath(valid), Target: "/" + g.names[r.Intn(len(g.names))]}
 			node = &c03Node{Kind: "soft"}
+			if r.Chance(1, 3) && strings.HasPrefix(op.Path, "/") && len(op.Path) > 1 && !strings.HasSuffix(op.Path, "/") {
+				// a target path that fills the link object's header almost to capacity (the link
+				// message holds the link's own name too): creation itself sits at a capacity edge
+				_, last := splitPath(op.Path)
+				if n := r.Range(236, 250) - len(last) - 8; n > 1 {
+					op.Target = "/" + strings.Repeat("t", n)
+					node.NearFull = true
+					nearFullCreate = true
+				}
+			}
 		case 4:
 			op = hx.Op{K: "extlink", Path: g.newPath(valid), File: "other.h5", Target: "/x"}
 			node = &c03Node{Kind: "ext"}
@@ -257,6 +274,9 @@ func c03Run(c *ev.Ctx) {
 			if op.K == "hardlink" && m.nodes[op.Target] == nil {
 				expect = "fail"
 			}
+		}
+		if nearFullCreate && expect == "ok" {
+			expect = "either"
 		}
 		if expect == "either" {
 			capEdge = true
